@@ -296,16 +296,14 @@ func kinds() []pingKind {
 	return []pingKind{
 		{name: "hello-request", expectChange: true, allowed: onlySessionOf,
 			emit: func(sc *scene, from int) error {
-				sc.ms.Nodes[from].Inst.RouterV.HelloPing.VerifExpireHello(vip(sc))
-				_, err := sc.ms.Nodes[from].Inst.RouterV.HelloPing.Send(vip(sc))
+				_, err := env.Rekey(sc.ms.Nodes[from].Inst, vip(sc))
 				return err
 			}},
 		{name: "hello-response", expectChange: true, allowed: onlySessionOf,
 			emit: func(sc *scene, from int) error {
 				v := sc.ms.Nodes[V]
-				v.Inst.RouterV.HelloPing.VerifExpireHello(sc.ms.Nodes[from].ID.IP)
 				// the victim asks, the honest router answers
-				_, err := v.Inst.RouterV.HelloPing.Send(sc.ms.Nodes[from].ID.IP)
+				_, err := env.Rekey(v.Inst, sc.ms.Nodes[from].ID.IP)
 				return err
 			}},
 		{name: "pong-request", allowed: func(*scene, netip.Addr, string) bool { return false },
@@ -479,6 +477,17 @@ func runScene(res *core.Result, r *rand.Rand, exhaustiveBits bool) {
 					continue
 				}
 				sc.seedRoutes(6)
+				if !strings.HasPrefix(k.name, "hello") {
+					// the honest router needs keys with the victim for most of its pings; an earlier step may have left
+					// it without (a re-key whose answer was held back, an authentic "no encryption keys" error)
+					if se := ms.Nodes[from].Inst.StateV.GetSession(v.ID.IP); se == nil || !se.Encryption().IsSetUp() {
+						time.Sleep(1500 * time.Microsecond)
+						if _, err := env.Rekey(ms.Nodes[from].Inst, v.ID.IP); err == nil {
+							ms.Drain(vmesh.FIFO, 200)
+							res.Count("keys_set_up_again_before_a_ping", 1)
+						}
+					}
+				}
 				held, err := sc.intercept(func() error { return k.emit(sc, from) })
 				if err != nil {
 					res.Count("emit_failed:"+k.name, 1)
@@ -687,10 +696,9 @@ func runScene(res *core.Result, r *rand.Rand, exhaustiveBits bool) {
 	{
 		// (earlier "no encryption keys" errors legitimately discarded keys: set them up again first)
 		n1 := ms.Nodes[1]
-		n1.Inst.RouterV.HelloPing.VerifExpireHello(ms.Nodes[V].ID.IP)
 		ms.Nodes[V].Inst.RouterV.HelloPing.VerifExpireHello(n1.ID.IP)
 		time.Sleep(1500 * time.Microsecond)
-		_, _ = n1.Inst.RouterV.HelloPing.Send(ms.Nodes[V].ID.IP)
+		_, _ = env.Rekey(n1.Inst, ms.Nodes[V].ID.IP)
 		ms.Drain(vmesh.FIFO, 100)
 	}
 	// (only the sequence-numbered class: hundreds of signed pings sealed within milliseconds would push the
@@ -987,7 +995,7 @@ func concurrentDuplicates(res *core.Result, r *rand.Rand, rounds int) {
 		kind := []string{"hello-request", "pong-request"}[round%2]
 		switch kind {
 		case "hello-request":
-			_, err = x.Inst.RouterV.HelloPing.Send(v.ID.IP)
+			_, err = env.Rekey(x.Inst, v.ID.IP)
 		default:
 			_, _, err = x.Inst.RouterV.PingPong.Send(v.ID.IP, true, 0)
 		}
